@@ -254,13 +254,13 @@ def generic(prop, ctx, nq, nt, steps, rule, weights=None, extra=None, **kw):
             run_scenarios(prop, dict(ctx, noshrink=True), [('replay', lines)], res, label='replay')
         return res
     corpus = corpus_scenarios(prop)
-    run_scenarios(prop, ctx, corpus, res, label='corpus')
+    t0 = run_scenarios(prop, ctx, corpus, res, label='corpus')
     res.extra['corpus_scenarios'] = len(corpus)
     n = nq if ctx['tier'] == 'quick' else nt
     ws = walks(ctx, n, steps, 0, weights=weights, **kw)
     t1 = run_scenarios(prop, ctx, ws, res)
     res.extra['op_histogram'] = op_histogram(ws)
-    res.all_traces = [(c[0], c[1], None) for c in corpus] + [(w[0], w[1], t) for w, t in zip(ws, t1)]
+    res.all_traces = [(c[0], c[1], t) for c, t in zip(corpus, t0)] + [(w[0], w[1], t) for w, t in zip(ws, t1)]
     if extra is not None:
         ex = extra(ctx)
         t2 = run_scenarios(prop, ctx, ex, res, label='enumerated')
